@@ -235,3 +235,141 @@ def keyid_field_edits(blob: bytes) -> t.Iterator[bytes]:
     m = bytearray(blob)
     m[i : i + 4] = b"XXXX"
     yield bytes(m)
+
+
+def field_substitutions(blob: bytes, other: bytes) -> t.Iterator[bytes]:
+    """Structure-aware tampering: decode the blob with the library's own decoder, replace ONE field group by a variant
+    (prefix / suffix / empty / zeros / the corresponding field of another valid blob with a different plaintext) and
+    re-encode it in both layouts, so that all enclosing lengths stay consistent."""
+    import dataclasses
+
+    from dpapi_ng._blob import DPAPINGBlob, SIDDescriptor
+
+    b = DPAPINGBlob.unpack(blob)
+    o = DPAPINGBlob.unpack(other)
+    c, w = bytes(b.enc_content), bytes(b.enc_cek)
+    variants = []
+    for v in (c[:16], c[-16:], c[:-1], c[1:], c + b"\x00", b"\x00" * 16, b"\x00" * len(c), c[:17], c[:15], bytes(o.enc_content)):
+        variants.append({"enc_content": v})
+    for v in (w[:-1], w[1:], w + b"\x00", b"\x00" * len(w), w[:24], bytes(o.enc_cek)):
+        variants.append({"enc_cek": v})
+    par = bytes(b.enc_content_parameters or b"")
+    if par:
+        for i in (4, len(par) // 2, len(par) - 1):
+            m = bytearray(par)
+            m[i] ^= 1
+            variants.append({"enc_content_parameters": bytes(m)})
+        variants.append({"enc_content_parameters": bytes(o.enc_content_parameters)})
+    variants.append({"enc_cek_parameters": b"\x05\x00"})
+    k = b.key_identifier
+    for ch in ({"l0": k.l0 + 1}, {"l1": (k.l1 + 1) % 32}, {"l2": (k.l2 + 1) % 32}, {"l2": (k.l2 - 1) % 32}, {"flags": k.flags ^ 1},
+               {"key_info": bytes(k.key_info)[:-1] + bytes([bytes(k.key_info)[-1] ^ 1]) if k.key_info else b"\x01"},
+               {"key_info": bytes(o.key_identifier.key_info)}, {"version": k.version + 1}, {"flags": k.flags ^ 4},
+               {"domain_name": k.domain_name + "x"}, {"forest_name": ""}):
+        variants.append({"key_identifier": dataclasses.replace(k, **ch)})
+    variants.append({"protection_descriptor": SIDDescriptor("S-1-5-18")})
+    # two-field splices from the other blob (never all of them)
+    variants.append({"enc_content": bytes(o.enc_content), "enc_content_parameters": bytes(o.enc_content_parameters)})
+    variants.append({"enc_cek": bytes(o.enc_cek), "key_identifier": o.key_identifier})
+    for v in variants:
+        try:
+            nb = dataclasses.replace(b, **v)
+            yield nb.pack()
+            yield nb.pack(blob_in_envelope=False)
+        except Exception:  # noqa: BLE001 - a variant the encoder refuses is simply not a test input
+            continue
+    # trailing layout: every truncation of the trailing ciphertext (the envelope stays intact)
+    t = b.pack(blob_in_envelope=False)
+    head = len(t) - len(c)
+    for n in range(0, len(c)):
+        yield t[: head + n]
+
+
+def tlv_tree(data: bytes, limit=400):
+    """[(offset, header_len, content_len, parent_index)] by a tolerant recursive walk (OCTET STRINGs that look like DER are entered too)"""
+    out = []
+
+    def walk(lo, hi, depth, parent):
+        pos = lo
+        while pos < hi and len(out) < limit:
+            if pos + 2 > hi:
+                return
+            tag = data[pos]
+            p = pos + 1
+            if tag & 0x1F == 0x1F:
+                while p < hi and data[p] & 0x80:
+                    p += 1
+                p += 1
+            if p >= hi:
+                return
+            l0 = data[p]
+            p += 1
+            if l0 & 0x80:
+                k = l0 & 0x7F
+                if k == 0 or p + k > hi:
+                    return
+                n = int.from_bytes(data[p : p + k], "big")
+                p += k
+            else:
+                n = l0
+            if p + n > hi:
+                return
+            me = len(out)
+            out.append((pos, p - pos, n, parent))
+            if tag & 0x20 and depth < 12:
+                walk(p, p + n, depth + 1, me)
+            elif tag == 0x04 and n > 2 and depth < 12 and data[p] in (0x30, 0x31):
+                walk(p, p + n, depth + 1, me)
+            pos = p + n
+
+    walk(0, len(data), 0, -1)
+    return out
+
+
+def replace_content(data: bytes, tree, idx: int, new_content: bytes) -> bytes:
+    """Replace the content of TLV `idx` and re-encode the lengths of the TLV and of all its ancestors (minimal DER lengths)."""
+    off, hl, cl, parent = tree[idx]
+    # identifier octets = header minus length octets
+    p = off + 1
+    if data[off] & 0x1F == 0x1F:
+        while data[p] & 0x80:
+            p += 1
+        p += 1
+    ident = data[off:p]
+    piece = ident + der_len(len(new_content)) + new_content
+    out = data[:off] + piece + data[off + hl + cl :]
+    delta = len(piece) - (hl + cl)
+    # fix the ancestors, innermost first; offsets of ancestors are unaffected by changes inside them
+    cur = parent
+    while cur >= 0:
+        aoff, ahl, acl, aparent = tree[cur]
+        q = aoff + 1
+        if out[aoff] & 0x1F == 0x1F:
+            while out[q] & 0x80:
+                q += 1
+            q += 1
+        aident = out[aoff:q]
+        new_len = acl + delta
+        newhdr = aident + der_len(new_len)
+        out = out[:aoff] + newhdr + out[aoff + ahl :]
+        delta += len(newhdr) - ahl
+        cur = aparent
+    return out
+
+
+def consistent_length_mutations(blob: bytes, max_each=70) -> t.Iterator[bytes]:
+    """For every primitive element: its content cut to every length (small elements) or to a spread of lengths, grown by
+    one octet, emptied - with the lengths of the element and of all enclosing elements re-encoded consistently."""
+    tree = tlv_tree(blob)
+    has_child = {t[3] for t in tree}
+    for idx, (off, hl, cl, parent) in enumerate(tree):
+        if idx in has_child:
+            continue
+        content = blob[off + hl : off + hl + cl]
+        lens = set(range(0, min(cl, max_each)))
+        lens.update({cl - 1, cl - 2, cl // 2})
+        for n in sorted(x for x in lens if 0 <= x < cl):
+            yield replace_content(blob, tree, idx, content[:n])
+        yield replace_content(blob, tree, idx, content + b"\x00")
+        if cl:
+            yield replace_content(blob, tree, idx, content[1:])
